@@ -98,7 +98,7 @@ def directed():
     D.append(("zero-p2p", mk(2, [["0 isend 1 1 0 0 0", "1 irecv 0 1 0 0 0"], "* waitall", ["1 send 0 2 0 6", "0 recv 1 2 0 6"]])))
     # a request completed by MPI_Test needs no MPI_Wait; its (src,dst,tag) may be used again
     D.append(("test-then-reuse-key", mk(2, [["0 send 1 9 100 0", "1 irecv 0 9 100 0 0"], "1 sleep 100000", "1 test 0",
-                                            ["0 sleep 50000", "1 irecv 0 9 100 0 1"], "1 wait 1", ["0 send 1 9 100 0"], B])))
+                                            ["0 sleep 50000", "0 send 1 9 100 0", "1 irecv 0 9 100 0 1"], "1 wait 1", B])))
     # same (src,dst,tag) for two pending requests, waited in posting order (the order the replay tool assumes)
     D.append(("same-key-fifo", mk(2, [["0 isend 1 4 100 0 0", "1 irecv 0 4 100 0 0"], ["0 isend 1 4 70000 6 1", "1 irecv 0 4 70000 6 1"],
                                       "0 wait 0", "0 wait 1", "1 wait 0", "1 wait 1"])))
@@ -121,8 +121,9 @@ def kind_of(event):
     return "+".join(ks)
 
 
-def features(case, events):
-    """Discriminating features of the culprit event beyond its kind (kept small and stable)."""
+def features(case, events, info):
+    """Discriminating features of the culprit event beyond its kind (kept small and stable): zero counts, a wait that
+    designates a (src,dst,tag) already used by a request that MPI_Test saw earlier, the signature of an abort."""
     ev = events[-1]
     k = ev[0].split()
     f = []
@@ -133,6 +134,29 @@ def features(case, events):
         f.append("count=0")
     if k[1] in ("allgatherv", "reducescatter", "alltoallv") and all(int(x) == 0 for x in k[3:]):
         f.append("count=0")
+    if k[1] in ("wait", "waitall"):
+        r = k[0]
+        slot, tested, keys = {}, set(), []
+        for e in events[:-1]:
+            for l in e:
+                w = l.split()
+                if w[0] != r:
+                    continue
+                if w[1] == "isend":
+                    slot[w[6]] = (int(r), int(w[2]), int(w[3]))
+                elif w[1] == "irecv":
+                    slot[w[6]] = (int(w[2]), int(r), int(w[3]))
+                elif w[1] == "test" and w[2] in slot:
+                    tested.add(slot[w[2]])
+        if k[1] == "wait" and slot.get(k[2]) in tested:
+            f.append("key-tested-before")
+    msg = info.get("msg", "")
+    if "double free" in msg or "free(): invalid" in msg:
+        f.append("double-free")
+    elif "MPI_ERR_TRUNCATE" in msg:
+        f.append("err-truncate")
+    elif "Segmentation" in msg or "SIGSEGV" in msg:
+        f.append("segv")
     return f
 
 
@@ -207,11 +231,11 @@ def judge(ctx, base, name, case, tmo=300, bisect=True):
             evs, st2, info2 = m
     culprit = kind_of(evs[-1])
     key = "C37:%s:%s" % (st2, culprit)
-    ft = features(case, evs)
+    ft = features(case, evs, info2)
     if ft:
         key += ":" + ":".join(ft)
     sel = [c.split(":", 1)[1] for c in case["cfg"] if "coll-selector" in c]
-    if sel and evs[-1][0].split()[0] == "*" and culprit not in ("barrier", "waitall"):
+    if sel and evs[-1][0].split()[1] in tigen.COLLS and culprit != "barrier":
         key += ":selector=" + sel[0]
     det = {k: v for k, v in info2.items() if k != "stats"}
     what = "%s np=%d: replay of the TI trace %s after '%s' (%d-event prefix of a %d-event program): %s" % (
@@ -228,24 +252,26 @@ def run(ctx):
     build.smpicc("mpi/ti_prog.c", "hooks")
     base = tempfile.mkdtemp(prefix="verif-C37-")
     n = ctx.size(36, 900)
-    jobs = [(nm, c) for nm, c in directed()]
-    for i in range(n):
+    only = os.environ.get("VERIF_C37_ONLY", "")          # development knob: "dir" or "rnd"
+    jobs = [(nm, c) for nm, c in directed()] if only != "rnd" else []
+    for i in range(n if only != "dir" else 0):
         rng = ctx.sub_rng(i)
         np_ = rng.choice([2, 2, 3, 3, 4, 4, 5, 6, 7, 8, 8, 9, 12])
         xml, hosts = tigen.platform(rng)
         nev = rng.choice([6, 12, 20, 35]) if np_ <= 8 else rng.choice([6, 12])
         # the call kinds listed in known_findings.d/C37.json are kept out of the random programs (their divergence
         # would hide any other one); the directed cases re-find them on every run
-        p = tigen.program(rng, np_, nev, exclude=KNOWN_KINDS)
-        jobs.append(("rnd%d" % i, {"np": np_, "hosts": tigen.hostfile(rng, hosts, np_), "platform": xml, "cfg": tigen.config(rng),
-                                   "events": p.events}))
+        p = tigen.program(rng, np_, nev, avoid=AVOID)
+        jobs.append(("rnd%d" % i, {"np": np_, "hosts": tigen.hostfile(rng, hosts, np_), "platform": xml,
+                                   "cfg": tigen.config(rng, avoid=AVOID), "events": p.events}))
     try:
         ctx.pmap(lambda j: judge(ctx, base, j[0], j[1]), jobs)
     finally:
         shutil.rmtree(base, ignore_errors=True)
 
 
-KNOWN_KINDS = ()
+# Triggers of the open known findings (known_findings.d/C37.json), kept out of the random programs: see tigen.program/config.
+AVOID = ("zero-gather-scatter", "test-key-reuse", "smp-selectors")
 
 
 def replay(ctx, w):
